@@ -83,7 +83,7 @@ def main():
         })
     m = {
         "version": 1,
-        "setup_cmd": "./check build",
+        "setup_cmd": "./check build && ./check build-repo",
         "hooks": {
             "guard": "--cfg ellbur_totalmapper_verif",
             "enable": "RUSTFLAGS='--cfg ellbur_totalmapper_verif' for the harness crate /verif/harness, which includes /repo/src/*.rs by #[path] (set by ./check); /repo itself is never built with the guard on",
